@@ -782,6 +782,20 @@ class C09(L1Prop):
         # under another client id
         from .props_http import interleaved_upload_cases
         out += interleaved_upload_cases("c09", rng, sizes(tier, 12, 100))
+        # the real executable, several clients taking turns on ONE persistent connection (a pooling
+        # reverse proxy): each request is served under the client id IT carries
+        for k in range(sizes(tier, 2, 12)):
+            ops = ["boot listen=flag:1 dir=flag allow=none versions=default days=default"]
+            order = [1, 2, 1, 3, 2, 3, 1]
+            rng.shuffle(order)
+            for j, c in enumerate(order):
+                ops.append(f"httpk@0 POST av hyph=latest:{c} hyph={c} history b:{c},{c},{j}")
+                o2 = rng.choice([x for x in (1, 2, 3) if x != c])
+                ops += [f"httpk@0 GET gcv hyph=nil hyph={o2} absent e", f"httpk@0 GET snap - hyph={o2} absent e"]
+                if rng.random() < 0.5:
+                    ops.append(f"httpk@0 POST as hyph=latest:{c} hyph={c} snapshot b:9,{c}")
+            ops += [f"httpk@0 GET gcv hyph=nil hyph={c} absent e" for c in (1, 2, 3)] + ["kill"]
+            out.append(Case(f"c09-conn-{k}", ops, {"http": True, "only": "sqlite", "conn": True}, mode="bin"))
         return out
     def relevant(self, i, trace):
         # a divergence on a request that quotes an id stored for another client
@@ -800,6 +814,20 @@ class C09(L1Prop):
                 owner[added_id(r2)] = op2.c
         return arg in owner and owner[arg] != op.c
     def oracle(self, case, trace, backend):
+        if case.meta.get("conn"):
+            from .props_http import HOp, HResp
+            fails, mine = [], {}
+            for i, (o, ri, rm) in enumerate(trace):
+                if not o.startswith("http "):
+                    continue
+                h, r = HOp(o), HResp(ri)
+                if h.route == "av" and r.status == 200 and r.xv.isdigit():
+                    mine.setdefault(h.cid, set()).add(r.xv)
+                if h.route in ("gcv", "snap") and r.status == 200 and r.xv.isdigit() and r.xv not in mine.get(h.cid, set()):
+                    fails.append(f"op {i}: client {h.cid} was shown version {r.xv}, which belongs to another client (requests of several clients on one connection)")
+                if h.route == "av" and r.status == 409 and r.xp.isdigit() and r.xp not in mine.get(h.cid, set()):
+                    fails.append(f"op {i}: client {h.cid} was told the latest version is {r.xp}, which belongs to another client")
+            return fails
         if case.meta.get("http"):
             from .props_http import C06
             return [m + " (uploads of several clients interleaved on one worker)" for m in C06().oracle(case, trace, backend)]
